@@ -27,6 +27,17 @@ theorem tidy_prun {c : PConfig} (sched : List PMove) (h : c.Tidy) : (prun c sche
     | none => simpa using h
     | some c' => simpa using tidy_step h hs
 
+/-- the excess stage returns only after its input, the bus channel, was closed -/
+def PConfig.ExOrder (c : PConfig) : Prop := c.exDone = true → c.inClosed = true
+
+theorem exOrder_step {c c' : PConfig} {m : PMove} (h : c.ExOrder) (hs : pstep c m = some c') : c'.ExOrder := by
+  cases m <;> simp only [pstep] at hs <;> (repeat' (split at hs)) <;>
+    first
+      | (cases hs; done)
+      | (simp only [Option.some.injEq] at hs; subst hs
+         simp only [PConfig.ExOrder, fwRecv, exRecv, pidRecv] at *
+         (repeat' split) <;> simp_all)
+
 /-- the watcher goroutine, once started, is never "not started" again -/
 theorem wpc_ne_none_next (c : Config) (m : Move) (l : Nat) :
     (c.ls l).wpc ≠ .none → ((next c m).ls l).wpc ≠ .none := by
